@@ -765,6 +765,7 @@ func main() {
 	genSchema(repo, out)
 	genTimeCounter(repo, out)
 	genDecide(repo, out)
+	genHandlers(repo, out, events)
 
 	hdr := "(* GENERATED by dt2coq from /repo on every run. Do not edit. *)\nFrom Coq Require Import List NArith String.\nImport ListNotations.\nLocal Open Scope N_scope.\n\n"
 
